@@ -9,6 +9,7 @@ Rewrite rules (each application is counted and reported):
   R6 format!(...) -> String::new()                                     (message text is not part of any property)
   R7 (a..b).contains(&x) -> (a <= x && x < b)                          (integer ranges only)
   R8 `&X[i]` / `X[i]` through a one-line `impl Index` whose body is `&self.0[index]` -> `X.0[i]`  (body text is checked)
+  R11 "literal".into() / .to_string() / .to_owned() -> String::new()   (error-message text only)
   R10 `&s[a..b]` on a slice -> vstd::slice::slice_subrange(s, a, b)   (same value; Verus has no range-index syntax)
   R9 `..` rest patterns / field shorthands are kept; `as usize`/`as i32` casts are kept (Verus checks them)
 Anything else unsupported => Undecided (exit 2), never an alarm."""
@@ -25,7 +26,7 @@ _SEMANTIC = re.compile(r"postcondition not satisfied|precondition not satisfied|
 
 
 def load_units():
-    p = os.path.join(VERIF, "verus", "units.py")
+    p = os.environ.get("VERIF_UNITS") or os.path.join(VERIF, "verus", "units.py")
     spec = importlib.util.spec_from_file_location("verus_units", p)
     mod = importlib.util.module_from_spec(spec)
     spec.loader.exec_module(mod)
@@ -55,6 +56,10 @@ def _rewrite(body, rules, counts):
             n += 1
         body = out
         cnt("R6", n)
+    if "R11" in rules:
+        # string literal `.into()` / `.to_string()` / `.to_owned()` used only as error-message text
+        body, n = re.subn(r'"(?:[^"\\\\]|\\\\.)*"\s*\.(?:into|to_string|to_owned)\(\)', "String::new()", body)
+        cnt("R11", n)
     if "R7" in rules:
         body, n = re.subn(r"\(\s*([^()]+?)\s*\.\.\s*\(([^()]+(?:\([^()]*\)[^()]*)*)\)\s*\)\s*\.contains\(\s*&\s*(\w+)\s*\)",
                           r"((\1) <= \3 && \3 < (\2))", body)
@@ -197,7 +202,7 @@ def build_unit(scratch, name, unit):
     parts = ["// GENERATED on every run by /verif/lib/verus_engine.py from the working tree – do not edit\n",
              "#![allow(unused_imports, dead_code, unused_variables, unused_mut, unused_parens)]\n",
              "use vstd::prelude::*;\n", "use vstd::slice::slice_subrange;\n", "verus! {\n"]
-    prelude = open(os.path.join(VERIF, "verus", "prelude.rs")).read()
+    prelude = open(os.environ.get("VERIF_PRELUDE") or os.path.join(VERIF, "verus", "prelude.rs")).read()
     for sec in unit.get("prelude_sections", []):
         sm = re.search(r"//\s*@section %s\n(.*?)//\s*@end" % re.escape(sec), prelude, re.S)
         if not sm:
@@ -207,7 +212,7 @@ def build_unit(scratch, name, unit):
         parts.append(unit["pre"])
     fn_lines = {}
     for it in unit["items"]:
-        src = open(os.path.join(scratch.repo, "src", it["file"] + ".rs")).read()
+        src = open(os.path.join(scratch.repo, "src", it["file"] + ".rs")).read() if it.get("file") else ""
         if it["kind"] == "struct":
             parts.append(_splice_struct(src, it, counts))
         elif it["kind"] == "fn":
@@ -217,11 +222,22 @@ def build_unit(scratch, name, unit):
             start = sum(p.count("\n") for p in parts) + 1
             parts.append(txt)
             fn_lines[it["name"]] = (start, start + txt.count("\n"))
+        elif it["kind"] == "enum":
+            et = rsx.find_enum(src, it["name"])
+            et = re.sub(r"^(pub(\([^)]*\))?\s+)?enum", "pub enum", et)
+            for (a, b) in it.get("rewrites", []):
+                if a not in et:
+                    raise Undecided("lost anchor in enum %s: %r" % (it["name"], a))
+                et = et.replace(a, b)
+            parts.append(it.get("attrs", "") + et + "\n")
+        elif it["kind"] == "verbatim":
+            parts.append(it["text"])
         elif it["kind"] == "index_impl_check":
             # R8: the Index impl we bypass must be exactly `&self.0[index]`
             info = rsx.find_fn(src, "index", it["type"], it.get("impl_filter"))
-            if re.sub(r"\s+", "", info["body"]) != "{&self.0[index]}":
-                raise Undecided("R8: impl Index for %s is no longer `&self.0[index]`" % it["type"])
+            want = it.get("body", "{&self.0[index]}")
+            if re.sub(r"\s+", "", info["body"]) != re.sub(r"\s+", "", want):
+                raise Undecided("R8: impl Index for %s is no longer `%s`" % (it["type"], want))
             counts["R8"] = counts.get("R8", 0) + 1
     if unit.get("post"):
         parts.append(unit["post"])
